@@ -50,7 +50,7 @@ def make_obs(ctx):
     idxs = range(2, 29) if ctx.tier == 'thorough' else ()
     for i in idxs:
         obs.append(Ob('dtadd-rs:ymd:entry%d' % i, H, 'h_dtadd_rs', {'WITH_DTCORE': 1, 'REP': REPS['ymd'], 'IDX': i},
-                      units=DT_UNITS, unwind=40, group='dtadd-rs:ymd', timeout=1800, memgb=10,
+                      units=DT_UNITS, unwind=40, group='dtadd-rs:ymd', timeout=1800, memgb=6,
                       remove_bodies=core.prune_cals(['ymd']),
                       bounds={'start': 'within 3 s either side of table entry %d' % i, 'N': '-5..5 real seconds'}))
     return obs
